@@ -88,7 +88,10 @@ def main(tier):
         raise MachineryError(f"only {len(enum2)} save-recover-save-recover behaviours")
     behs = behs + enum + enum2
     events, comp = layerb.run_behaviours(chk, "C17", behs, fcheck=False)
-    long_histories(chk, (64, 33) if quick else (64, 128, 127, 65, 100))
+    import numpy as np
+
+    rk = [int(x) for x in np.random.default_rng(SEED + 1717).integers(5, 130, size=1 if quick else 4)]    # and a seeded draw of counts
+    long_histories(chk, ((64, 33) if quick else (64, 128, 127, 65, 100)) + tuple(rk))
     acts = {}
     for e in events:
         acts[e["ev"]] = acts.get(e["ev"], 0) + 1
